@@ -340,6 +340,7 @@ type vfC17amH struct {
 	lastSeq                uint64
 	readsAfterClose        int
 	closedOK               bool
+	held                   []vfC17amHeld
 }
 
 var (
@@ -803,6 +804,35 @@ func (h *vfC17amH) holdTrig() {
 	}
 }
 
+// vfC17amHeld is a list a public call handed out, kept to see that the manager never writes to it afterwards
+type vfC17amHeld struct {
+	what string
+	l    []ma.Multiaddr
+	snap string
+}
+
+func vfC17amSnap(l []ma.Multiaddr) string {
+	var b strings.Builder
+	for _, a := range l {
+		if a == nil {
+			b.WriteString("<nil>;")
+		} else {
+			b.WriteString(a.String() + ";")
+		}
+	}
+	return b.String()
+}
+
+// modified reports the lists handed out by the previous query that have changed since
+func (h *vfC17amH) modified() (out []string) {
+	for _, x := range h.held {
+		if now := vfC17amSnap(x.l); now != x.snap {
+			out = append(out, fmt.Sprintf("%s: was [%s], now [%s]", x.what, x.snap, now))
+		}
+	}
+	return
+}
+
 func (h *vfC17amH) query() (addrs, direct, r, u, k, hp []string, dup string) {
 	h.mu.Lock()
 	h.inQuery = true
@@ -816,10 +846,17 @@ func (h *vfC17amH) query() (addrs, direct, r, u, k, hp []string, dup string) {
 	if addrs, d = h.u.names(a); d {
 		dup += " Addrs"
 	}
-	if direct, d = h.u.names(h.am.DirectAddrs()); d {
+	da := h.am.DirectAddrs()
+	if direct, d = h.u.names(da); d {
 		dup += " DirectAddrs"
 	}
 	cr, cu, ck := h.am.ConfirmedAddrs()
+	h.held = h.held[:0]
+	for _, x := range []vfC17amHeld{{what: "Addrs()", l: a}, {what: "DirectAddrs()", l: da}, {what: "ConfirmedAddrs() reachable", l: cr},
+		{what: "ConfirmedAddrs() unreachable", l: cu}, {what: "ConfirmedAddrs() unknown", l: ck}, {what: "HolePunchAddrs()", l: p}} {
+		x.snap = vfC17amSnap(x.l)
+		h.held = append(h.held, x)
+	}
 	if r, d = h.u.names(cr); d {
 		dup += " ConfirmedAddrs.reachable"
 	}
@@ -1495,6 +1532,9 @@ func vfC17amWalk(t *testing.T, res *vfh.Result, cfg vfC17amCfg, w vfh.Walk, vari
 			natClosed := h.natClosed
 			h.mu.Unlock()
 			evs := h.events()
+			for _, m := range h.modified() {
+				rep("am-returned-list-modified-later", fmt.Sprintf("%s: a list handed out before this step was written to by the manager: %s", op.Name(), m))
+			}
 			addrs, direct, r, u, k, hp, dup := h.query()
 			if dup != "" {
 				rep("am-duplicate-address", "an address occurs twice in"+dup)
